@@ -3,7 +3,7 @@
    CVote: labels.DownresLabels on a small array (the vote, array domain).
    CHttp: a labelmap instance with down-sampling enabled: writes through the HTTP API, then the
           label arrays read back at every scale (digests), compared level against level. *)
-From DV Require Import Base.Prelude Base.Int Base.BitPack Model.Block Model.BlockRun Model.Downres Gen.Consts.
+From DV Require Import Base.Prelude Base.Int Base.BitPack Model.Block Model.BlockRun Model.Downres Model.DownresPyr Gen.Consts.
 Local Open Scope N_scope.
 
 (* one step of a labelmap history.  Boxes are in voxels of the level written, aligned to blocks.
@@ -201,6 +201,84 @@ Definition hist_levels (maxlevel : N) (bs : N * N * N) (ws : list hwrite) (wx wy
 Definition hist_status (ws : list hwrite) : list N :=
   map (fun w => match w with WBlocks _ _ false _ _ _ _ _ => 1 | WRelabel _ false _ _ _ _ _ _ => 1 | _ => 0 end) ws.
 
+(* ---- the same histories through the BLOCK-level model (Model/DownresPyr.v) ----
+   For a history of raw writes on an instance with a cubic BlockSize, every step is also evaluated the
+   way labelmap does it: the blocks of the written box are the changed blocks (hiresCache), bexec
+   (getHiresChanges with the generated parent / octant arithmetic, downresOctant with the stored
+   parent as receiver, dr_arr_fast = dr_arr as Block.Downres) gives the changed blocks of every scale, which
+   replace the stored ones.  The state is one association list of blocks per scale (a block not
+   listed reads as zeros). *)
+Definition store_of (nvox : N) (m : bmap) : bstore :=
+  fun p => match bfind m p with Some a => a | None => repeat 0 (N.to_nat nvox) end.
+
+Definition blk_of_fn (B : Z) (f : Z -> Z -> Z -> N) (c : coord) : arr :=
+  let '(cx, cy, cz) := c in
+  map (fun p => let p := Z.of_N p in
+                f (cx * B + p mod B)%Z (cy * B + (p / B) mod B)%Z (cz * B + p / (B * B))%Z)
+      (nseq (Z.to_N (B * B * B))).
+
+Definition aligned (B : Z) (b : zbox) : bool :=
+  let '(x0, y0, z0, (x1, y1, z1)) := b in
+  forallb (fun v => (v mod B =? 0)%Z) [x0; y0; z0; x1; y1; z1].
+
+(* the block coordinates of a block-aligned box *)
+Definition coords_in (B : Z) (b : zbox) : list coord :=
+  let '(x0, y0, z0, (x1, y1, z1)) := b in
+  flat_map (fun z => flat_map (fun y => map (fun x =>
+    (x0 / B + Z.of_N x, y0 / B + Z.of_N y, z0 / B + Z.of_N z)%Z)
+    (nseq (Z.to_N ((x1 - x0) / B)))) (nseq (Z.to_N ((y1 - y0) / B)))) (nseq (Z.to_N ((z1 - z0) / B))).
+
+Definition pyr_step (B : Z) (olds : list bmap) (chg0 : bmap) : list bmap :=
+  let nvox := Z.to_N (B * B * B) in
+  let St := fun n => store_of nvox (nth n olds []) in
+  map (fun pr : nat * bmap =>
+         match bexec nvox (dr_arr_fast B) chg0 St (fst pr) with
+         | Ok (chg, _) => chg ++ snd pr
+         | _ => []
+         end)
+      (combine (seq 0 (length olds)) olds).
+
+(* the window of scale k read through the voxel view (Model/DownresPyr.v view), the blocks cut into rows first *)
+Definition win_of (B : Z) (m : bmap) (wx wy wz : Z) (n : N * N * N) : list N :=
+  let '(nx, ny, nz) := n in
+  let mr := map (fun e : coord * arr => (fst e, rows (Z.to_N B) (snd e))) m in
+  map (fun p => let X := (wx + Z.of_N (p mod nx))%Z in let Y := (wy + Z.of_N ((p / nx) mod ny))%Z in
+                let Zc := (wz + Z.of_N (p / (nx * ny)))%Z in
+                match find (fun e : coord * list (list N) => coord_eqb ((X / B)%Z, (Y / B)%Z, (Zc / B)%Z) (fst e)) mr with
+                | Some e => vox_rows B (snd e) (X mod B) (Y mod B) (Zc mod B)
+                | None => 0
+                end)
+      (nseq (nx * ny * nz)).
+
+Fixpoint win_digests (B : Z) (st : list bmap) (wx wy wz : Z) (n : N * N * N) : list (res N) :=
+  match st with
+  | [] => []
+  | m :: r => Ok (digest (win_of B m wx wy wz n))
+              :: win_digests B r (zhalf wx) (zhalf wy) (zhalf wz) (half3 n)
+  end.
+
+Fixpoint pyr_run (B : Z) (st : list bmap) (ws : list hwrite) (wx wy wz : Z) (n : N * N * N) : option (list (list (res N))) :=
+  match ws with
+  | [] => Some []
+  | WRaw ox oy oz sz ps :: r =>
+    let b := box_of ox oy oz sz in
+    if negb (aligned B b) then None else
+    let chg0 := map (fun c => (c, blk_of_fn B (fun x y z => paints_at ps (Z.to_N (x - ox)) (Z.to_N (y - oy)) (Z.to_N (z - oz)) 0) c))
+                    (coords_in B b) in
+    let st' := pyr_step B st chg0 in
+    match pyr_run B st' r wx wy wz n with
+    | Some rest => Some (win_digests B st' wx wy wz n :: rest)
+    | None => None
+    end
+  | _ :: _ => None
+  end.
+
+(* None: the history is outside the block-level evaluation (other write kinds, non-cubic blocks, unaligned box) *)
+Definition pyr_levels (maxlevel : N) (bs : N * N * N) (ws : list hwrite) (wx wy wz : Z) (n : N * N * N) : option (list (list (res N))) :=
+  let '(bx, by_, bz) := bs in
+  if negb ((bx =? by_) && (by_ =? bz) && N.even bx && (0 <? bx)) then None
+  else pyr_run (Z.of_N bx) (repeat [] (S (N.to_nat maxlevel))) ws wx wy wz n.
+
 (* ---- checks ---- *)
 
 Definition blocks_of (bps : list paint) (octs : list (option (list paint))) (gx gy gz : N)
@@ -241,7 +319,13 @@ Definition model_ok (c : c14case) : bool :=
   | CVote nx ny nz ps go_lo =>
     res_eqb (list_eqb N.eqb) (downres_labels (expand nx ny nz ps) nx ny nz) go_lo
   | CHttp _ _ _ _ _ _ _ _ => true
-  | CHist _ _ _ _ _ _ _ _ _ => true
+  | CHist maxlevel bs writes wx wy wz wn go_status go_levels =>
+    (* raw-write histories on cubic blocks: the block-level model must give the levels Go returned *)
+    if existsb (fun s => negb (s =? 0)) go_status then true else
+    match pyr_levels maxlevel bs writes wx wy wz wn with
+    | Some lv => list_eqb (list_eqb (res_eqb N.eqb)) lv go_levels
+    | None => true
+    end
   end.
 
 (* the property on the implementation's outputs.
